@@ -24,10 +24,11 @@ import PyxModel.Sql.Printer
                 `_is_null` -> `len(value)` on a falsy non-string value of an attribute whose type, looked up
                    by upper-cased name, is STRING (TypeError)               -- `connRaises`
               (`formalize` -> `alt_prop.fget` no longer raises since 6c6075a: a class attribute that is no property is ignored.)
-    unmodelled : an identifier of the form `__x__` is used where Python makes it an attribute of an object or a class
-              (attribute names, named INSERT columns, association keys): what happens depends on the name (`__class__`,
-              `__dict__`, `__hash__` … raise TypeError / AttributeError / RecursionError, `__foo__` does not).  The model
-              does not say; this is the open finding `build-builtin:dunder-identifier`, the one reachable case.
+    Identifiers of the form `__x__` (`_is_reserved`: longer than four characters, beginning and ending with two
+    underscores) are rejected with MetaModelException where they would become attribute names of python objects: by
+    `define_class` for an attribute name (declared, or a column of a named INSERT that creates its class) and by
+    `define_association` for a source key (since 7fb506e; before, some of them raised TypeError / AttributeError /
+    RecursionError).
 -/
 namespace Pyx.Sql
 
@@ -35,7 +36,6 @@ inductive BuildErr where
   | parseErr
   | metaErr
   | builtinErr
-  | unmodelled
   deriving DecidableEq, Repr
 
 /-- what `inst.__dict__[name]` holds after `populate_instances` -/
@@ -89,9 +89,14 @@ def distinctB : List Text → Bool
   | [] => true
   | x :: xs => !xs.contains x && distinctB xs
 
-/-- the loop of `define_class` over the attributes: `if name.upper() in unames: raise MetaModelException`; it
-    completes exactly when no two attribute names coincide after upper-casing -/
-def attrNamesOk (u : UC) (attrs : List (Name × Name)) : Bool := distinctB (attrs.map fun a => u.upper a.1)
+/-- `_is_reserved(name)`: longer than four characters, begins and ends with two underscores -/
+def isDunder (n : Name) : Bool := decide (5 ≤ n.length) && n.take 2 == ['_', '_'] && (n.reverse.take 2) == ['_', '_']
+
+/-- the loop of `define_class` over the attributes: `if _is_reserved(name): raise MetaModelException`,
+    `if name.upper() in unames: raise MetaModelException`; it completes exactly when no attribute name has the form `__x__`
+    and no two attribute names coincide after upper-casing -/
+def attrNamesOk (u : UC) (attrs : List (Name × Name)) : Bool :=
+  distinctB (attrs.map fun a => u.upper a.1) && attrs.all (fun a => !isDunder a.1)
 
 /-- `define_class`: the class name is looked up first, then the attribute names are compared -/
 def defineClass (u : UC) (s : BState) (kind : Name) (attrs : List (Name × Name)) : Except BuildErr BState :=
@@ -126,8 +131,9 @@ def popAssocs (u : UC) : List Stmt → BState → Except BuildErr BState
   | .createRop rel sk sc skeys sp tk tc tkeys tp :: rest, s =>
     match s.find? u sk, s.find? u tk with
     | some _, some t =>
-      -- `len(source_keys) != len(target_keys)` is checked first, then every target key must name an attribute
-      if skeys.length != tkeys.length then .error .metaErr
+      -- a reserved source key first, then `len(source_keys) != len(target_keys)`, then every target key must name an attribute
+      if skeys.any isDunder then .error .metaErr
+      else if skeys.length != tkeys.length then .error .metaErr
       else if tkeys.all (fun k => (t.attrs.map (fun a => u.upper a.1)).contains (u.upper k)) then
         let s1 := s.update u sk (fun c => { c with referential := c.referential ++ skeys })
         popAssocs u rest { s1 with assocs := s1.assocs ++ [⟨rel, sk, sc, skeys, sp, tk, tc, tkeys, tp⟩] }
@@ -291,20 +297,6 @@ def connRaises (u : UC) (s : BState) : Bool :=
 def popConnections (u : UC) (s : BState) : Except BuildErr BState :=
   if connRaises u s then .error .builtinErr else .ok s
 
-/-! ### identifiers that collide with Python object internals -/
-
-/-- `__\w+__` -/
-def isDunder (n : Name) : Bool := decide (5 ≤ n.length) && n.take 2 == ['_', '_'] && (n.reverse.take 2) == ['_', '_']
-
-/-- the identifiers of a statement that become attribute names of python objects or classes -/
-def Stmt.pyNames : Stmt → List Name
-  | .createTable _ attrs => attrs.map (fun a => a.1)
-  | .createRop _ _ _ skeys _ _ _ tkeys _ => skeys ++ tkeys
-  | .insert _ _ (some ns) => ns
-  | _ => []
-
-def touchesInternals (stmts : List Stmt) : Bool := stmts.any (fun st => st.pyNames.any isDunder)
-
 /-- phases 1–4 -/
 def buildCore (u : UC) (stmts : List Stmt) : Except BuildErr BState :=
   match popClasses u stmts BState.empty with
@@ -323,21 +315,20 @@ def buildPhases (u : UC) (stmts : List Stmt) : Except BuildErr BState :=
   | .error e => .error e
   | .ok s => popConnections u s
 
-/-- `build_metamodel`; identifiers of the form `__x__` in attribute positions are outside the model -/
-def build (u : UC) (stmts : List Stmt) : Except BuildErr BState :=
-  if touchesInternals stmts then .error .unmodelled else buildPhases u stmts
+/-- `build_metamodel` -/
+def build (u : UC) (stmts : List Stmt) : Except BuildErr BState := buildPhases u stmts
 
 /-! ### the built metamodel as the writers see it
 
   CAVEAT (referential cells).  `populate_connections` ends by deleting every referential attribute from the instance
   `__dict__`; afterwards `getattr` reads it through the property `formalize` installed, i.e. from the instance at the
-  other end of the link (`None` when there is none).  `toMM` below keeps the value the INSERT statement carried.  Both
-  agree exactly when every row that carries a non-null value in a source key cell is linked across that association to a
-  row with matching key cells (`RefsResolve`, Proofs/SqlLinks.lean) -- true of everything the writers produce from a model
-  built through the API (an unrelated instance reads `None` for its referential attributes, a related one reads the key
-  values of its partner).  A hand-written `INSERT INTO B VALUES (7, 5)` whose 5 refers to no `A` reads 0 in the
-  implementation and 5 here: outside that hypothesis `toMM` is NOT what `getattr` returns.  The reload theorems of
-  Props/C01.lean carry `RefsResolve` for that reason. -/
+  other end of the link (`None` when there is none).  `toMM` below keeps the value the INSERT statement carried.  What
+  `getattr` returns is modelled by `MM.readThrough` (PyxModel/Sql/Links.lean); the two agree exactly on the metamodels that
+  are FIXED POINTS of reading through links (`MM.ReadsFixed`, Proofs/SqlLinks.lean) -- true of everything the writers
+  produce from a model built through the API (an unrelated instance reads `None` for its referential attributes, a related
+  one reads the key values of its partner).  A hand-written `INSERT INTO B VALUES (7, 5)` whose 5 refers to no `A` reads 0
+  in the implementation and 5 here: there `toMM` is NOT what `getattr` returns.  The reload theorems of Props/C01.lean
+  carry `ReadsFixed` of the canonical form as a hypothesis and conclude it for the built metamodel. -/
 
 def cellVal : Cell → Option Val
   | .val v => some v
